@@ -18,6 +18,8 @@ public:
     using std::runtime_error::runtime_error;
 };
 
+static bool parse_context_range(LineNumber& start_line, LineNumber& end_line, const std::string& context_string);
+
 bool LineParser::is_eof() const
 {
     return m_current == m_end;
@@ -621,6 +623,10 @@ bool Parser::parse_patch_header(Patch& patch, PatchHeaderInfo& header_info, int 
         if (patch.format == Format::Unknown || patch.format == Format::Context) {
             if (last_line_looks_like == Format::Context && starts_with(line, "*** ")) {
                 patch.format = Format::Context;
+                // An old file range of '0' is how a context diff says that the file is created.
+                LineNumber old_range_end = 0;
+                if (ends_with(line, " ****"))
+                    parse_context_range(hunk.old_file_range.start_line, old_range_end, line.substr(4, line.size() - 9));
                 break;
             }
 
@@ -649,9 +655,9 @@ bool Parser::parse_patch_header(Patch& patch, PatchHeaderInfo& header_info, int 
     }
 
     if (patch.operation == Operation::Change) {
-        if (hunk.new_file_range.start_line == 0)
+        if (hunk.new_file_range.start_line == 0 || patch.new_file_path == "/dev/null")
             patch.operation = Operation::Delete;
-        else if (hunk.old_file_range.start_line == 0)
+        else if (hunk.old_file_range.start_line == 0 || patch.old_file_path == "/dev/null")
             patch.operation = Operation::Add;
     }
 
